@@ -44,6 +44,9 @@ type Config struct {
 	// so they must drop it all; their power is not needed by the others (they are drawn from
 	// the members that would otherwise be crash-silent).
 	Divergent []gpbft.ActorID
+	// DivergentSupp: the divergent participants agree on the base but derive other
+	// supplemental data (commitments) for every instance than the rest of the network.
+	DivergentSupp bool
 	Silent    []gpbft.ActorID // crash-silent members (never run)
 	Byz       []gpbft.ActorID
 	Options   []gpbft.Option
@@ -134,6 +137,7 @@ type Node struct {
 	// checked by monitors and its decisions do not count.
 	Byz      bool
 	Divergent bool
+	Supps     map[uint64]gpbft.SupplementalData // supplemental data the node's host returned per instance
 	Group    int
 	Idx      int
 	ID       gpbft.ActorID
@@ -272,7 +276,7 @@ func (h *host) GetProposal(_ context.Context, instance uint64) (*gpbft.Supplemen
 			}
 		}
 	}
-	if n.Divergent {
+	if n.Divergent && !n.W.Cfg.DivergentSupp {
 		cp := *base
 		cp.PowerTable = gpbft.MakeCid([]byte("diverged-derived-state"))
 		base = &cp
@@ -282,6 +286,11 @@ func (h *host) GetProposal(_ context.Context, instance uint64) (*gpbft.Supplemen
 	// the participant proposes at most ChainMaxLen tipsets of what the host returns
 	n.Inputs[instance] = chain.Prefix(gpbft.ChainMaxLen - 1)
 	sd := ic.Supp
+	if n.Divergent && n.W.Cfg.DivergentSupp {
+		sd.Commitments[0] ^= 0x5a
+		sd.Commitments[31] ^= 0xa5
+	}
+	n.Supps[instance] = sd
 	n.Mon.onStart(instance, chain)
 	return &sd, cloneChain(chain), nil
 }
@@ -395,7 +404,7 @@ func NewWorld(cfg *Config, fail func(id, sig, msg string)) (*World, error) {
 	w := &World{Cfg: cfg, Now: Epoch0, ByIdx: map[gpbft.ActorID]int{}, Evidence: NewEvidence(), Fail: fail}
 	w.Tracer = &tracer{w: w}
 	for i, id := range cfg.Honest {
-		n := &Node{W: w, Idx: i, ID: id, Decided: map[uint64]*Decision{}, Bases: map[uint64]*gpbft.TipSet{}, Inputs: map[uint64]*gpbft.ECChain{}, byInst: map[gpbft.Instant]*gpbft.GMessage{}}
+		n := &Node{W: w, Idx: i, ID: id, Decided: map[uint64]*Decision{}, Bases: map[uint64]*gpbft.TipSet{}, Supps: map[uint64]gpbft.SupplementalData{}, Inputs: map[uint64]*gpbft.ECChain{}, byInst: map[gpbft.Instant]*gpbft.GMessage{}}
 		n.Mon = newMonitor(n)
 		for _, d := range cfg.Divergent {
 			if d == id {
@@ -423,7 +432,7 @@ func NewWorld(cfg *Config, fail func(id, sig, msg string)) (*World, error) {
 		}
 		for g := 0; g < 2; g++ {
 			for _, id := range cfg.Byz {
-				n := &Node{W: w, Byz: true, Group: g, Idx: len(w.Nodes) + len(w.Personas), ID: id, Decided: map[uint64]*Decision{}, Bases: map[uint64]*gpbft.TipSet{}, Inputs: map[uint64]*gpbft.ECChain{}, byInst: map[gpbft.Instant]*gpbft.GMessage{}}
+				n := &Node{W: w, Byz: true, Group: g, Idx: len(w.Nodes) + len(w.Personas), ID: id, Decided: map[uint64]*Decision{}, Bases: map[uint64]*gpbft.TipSet{}, Supps: map[uint64]gpbft.SupplementalData{}, Inputs: map[uint64]*gpbft.ECChain{}, byInst: map[gpbft.Instant]*gpbft.GMessage{}}
 				n.Mon = newMonitor(n)
 				opts := append([]gpbft.Option{}, cfg.Options...)
 				p, err := gpbft.NewParticipant(&host{n: n}, opts...)
@@ -693,6 +702,14 @@ func cloneMsg(m *gpbft.GMessage) *gpbft.GMessage {
 		out.Justification = &j
 	}
 	return &out
+}
+
+// SuppOf is the supplemental data node n runs instance inst with (its own view).
+func (n *Node) SuppOf(inst uint64) gpbft.SupplementalData {
+	if sd, ok := n.Supps[inst]; ok {
+		return sd
+	}
+	return n.W.Cfg.Inst(inst).Supp
 }
 
 // AllDecided reports whether every started live node decided the last instance.
